@@ -308,6 +308,8 @@ int verif_case(const uint8_t *data, size_t size, Case &c) {
 // invisible to the race detector - but in more than one step (a table first cleared, then filled; a flag published before the data) gives
 // wrong results only to a thread that arrives inside that window of a few hundred nanoseconds: the digest comparison finds it, and only
 // a fresh process can (after the first use the window is gone for the life of the process).
+#include <signal.h>
+#include <sys/prctl.h>
 #include <sys/wait.h>
 #include <unistd.h>
 std::vector<uint8_t> storm_case(unsigned i) {
@@ -322,6 +324,7 @@ std::vector<uint8_t> storm_case(unsigned i) {
     return b;
 }
 long verif_enumerate(int shard, int nshards, int tier, verif::EnumReport &r) {
+    long inconclusive = 0;
     const unsigned total = (getenv("VERIF_FAMILY") ? 1 : 2) * (tier ? 3200u : 800u);      // as a stage of another property's check: half as many
     for (unsigned i = (unsigned)shard; i < total; i += (unsigned)nshards) {
         std::vector<uint8_t> bytes = storm_case(i);
@@ -331,6 +334,9 @@ long verif_enumerate(int shard, int nshards, int tier, verif::EnumReport &r) {
         if (pid < 0) { close(fds[0]); close(fds[1]); break; }
         if (pid == 0) {
             close(fds[0]);
+            prctl(PR_SET_PDEATHSIG, SIGKILL);      // never outlive the enumerating process
+            alarm(120);                             // a child that is still alive after two minutes of wall clock (cases take milliseconds) is stuck - e.g. the race
+                                                    // reporter waiting for threads that spin at the barrier; it is ended and counted as inconclusive, never as a verdict
             Case c; int v = verif::CASE_OK;
             try { v = verif_case(bytes.data(), bytes.size(), c); } catch (...) { v = verif::CASE_VIOLATION; c.failure = "exception escaped the case"; }
             if (v == verif::CASE_VIOLATION) { ssize_t w = write(fds[1], c.failure.data(), c.failure.size()); (void)w; }
@@ -343,6 +349,7 @@ long verif_enumerate(int shard, int nshards, int tier, verif::EnumReport &r) {
         close(fds[0]);
         int st = 0; waitpid(pid, &st, 0);
         r.evaluations++; r.nontrivial++;
+        if (WIFSIGNALED(st) && WTERMSIG(st) == SIGALRM) { inconclusive++; continue; }
         const bool bad = !(WIFEXITED(st) && WEXITSTATUS(st) == 0);
         if (bad) {
             if (why.empty()) why = WIFSIGNALED(st) ? "the fresh process was killed by signal " + std::to_string(WTERMSIG(st)) : "the fresh process ended with status " + std::to_string(WEXITSTATUS(st)) + " (66 = ThreadSanitizer report, see its output above)";
@@ -352,6 +359,7 @@ long verif_enumerate(int shard, int nshards, int tier, verif::EnumReport &r) {
             return r.evaluations;
         }
     }
+    if (inconclusive) r.samples.push_back("cold-start storm: " + std::to_string(inconclusive) + " fresh process(es) were ended after 120 s of wall clock without a result (inconclusive, not counted)");
     if (shard == 0) r.exhausted.push_back(std::string("cold-start storm: ") + std::to_string(total) + " fresh processes, 8 threads, every operation kind taking its turn as the first operation");
     return r.evaluations;
 }
